@@ -265,6 +265,11 @@ func (f *Flow) Eval(pid string, params []uint64, decide func(id string) string) 
 		r.Args[i] = targs
 		r.BodyRuns[i] = true
 		switch decide(id) {
+		case probe.Goexit:
+			// the task's goroutine is gone: nothing can absorb that
+			r.State[i] = StFailed
+			r.AnyFail = true
+			r.FailTasks = append(r.FailTasks, i)
 		case probe.Fail, probe.Panic:
 			if t.Fallback {
 				fallback()
